@@ -628,6 +628,8 @@ class Prop(PropBase):
              "called methods are Adapters whose result the driver computes from the predicted argument",
              "untimed reference model (entry-ordered item list, per-node pointers, clear epochs)"]
     search_space = "pipeline shapes and histories of source/sink readiness, per-stage stalls and clears"
+    assumptions = ["clear (read from the code, the statement gives no timing): an item accepted by the pipeline in the cycle clear "
+                   "runs is dropped, an item read by the sink in the cycle clear runs is delivered"]
     state_measure = "(items in flight, observable nodes executed this cycle, clear) per pipeline"
 
     # ---- generation -----------------------------------------------------------------------
